@@ -21,7 +21,7 @@ pub enum StyleOrigin {
 //@end
 
 //@item src/lib.rs :: struct Specificity
-#[derive(Debug, Copy, Clone, PartialEq, Eq, Default)] //@w
+#[derive(Debug, Copy, Clone, PartialEq, Eq)] //@w
 pub struct Specificity {
     pub inline: bool,
     pub id: u16,
@@ -29,6 +29,9 @@ pub struct Specificity {
     pub typ: u16,
 }
 //@end
+
+// trusted (A3): #[derive(Default)] on Specificity gives inline = false and zero counters
+impl Default for Specificity { #[verifier::external_body] fn default() -> (r: Self) ensures !r.inline && r.id == 0 && r.class == 0 && r.typ == 0 { unimplemented!() } }
 
 // ---- the cascade key, taken from the property statement (C19) ----
 // importance and origin first: agent < user < author < author !important < user !important < agent !important
@@ -48,9 +51,10 @@ pub open spec fn key_ge(i1: bool, o1: StyleOrigin, s1: Specificity, i0: bool, o0
     rank(i1, o1) > rank(i0, o0) || (rank(i1, o1) == rank(i0, o0) && !spec_lt(s1, s0))
 }
 pub open spec fn oidx(o: StyleOrigin) -> int { match o { StyleOrigin::None => 0, StyleOrigin::Agent => 1, StyleOrigin::User => 2, StyleOrigin::Author => 3 } }
-pub open spec fn add_fits(a: Specificity, b: Specificity) -> bool { a.id + b.id <= u16::MAX && a.class + b.class <= u16::MAX && a.typ + b.typ <= u16::MAX }
+pub open spec fn sat16(x: int) -> u16 { if x > u16::MAX { u16::MAX } else { x as u16 } }
+pub open spec fn add_fits(a: Specificity, b: Specificity) -> bool { true }
 pub open spec fn add_val(a: Specificity, b: Specificity) -> Specificity {
-    Specificity { inline: a.inline || b.inline, id: (a.id + b.id) as u16, class: (a.class + b.class) as u16, typ: (a.typ + b.typ) as u16 }
+    Specificity { inline: a.inline || b.inline, id: sat16(a.id + b.id), class: sat16(a.class + b.class), typ: sat16(a.typ + b.typ) }
 }
 
 #[verifier::external_body]
@@ -109,9 +113,9 @@ impl std::ops::Add<&Specificity> for &Specificity {
     {
         Specificity {
             inline: self.inline || rhs.inline,
-            id: self.id + rhs.id,
-            class: self.class + rhs.class,
-            typ: self.typ + rhs.typ,
+            id: self.id.saturating_add(rhs.id),
+            class: self.class.saturating_add(rhs.class),
+            typ: self.typ.saturating_add(rhs.typ),
         }
     }
 //@end
@@ -123,9 +127,9 @@ impl std::ops::AddAssign<&Specificity> for Specificity {
     fn add_assign(&mut self, rhs: &Specificity)
     {
         self.inline = self.inline || rhs.inline;
-        self.id += rhs.id;
-        self.class += rhs.class;
-        self.typ += rhs.typ;
+        self.id = self.id.saturating_add(rhs.id);
+        self.class = self.class.saturating_add(rhs.class);
+        self.typ = self.typ.saturating_add(rhs.typ);
     }
 //@end
 }
@@ -166,7 +170,7 @@ pub struct WithSpec<T> {
 impl<T: Clone> WithSpec<T> {
 //@item src/lib.rs :: impl WithSpec :: fn maybe_update
 //@auto C01 C19
-    fn maybe_update(
+    pub fn maybe_update(
         &mut self,
         important: bool,
         origin: StyleOrigin,
@@ -176,11 +180,10 @@ impl<T: Clone> WithSpec<T> {
         requires origin != StyleOrigin::None, //@w
             old(self).val.is_some() && old(self).origin == StyleOrigin::None ==> !old(self).important, //@w
         ensures //@w
-            // the new declaration wins iff there is no value yet or its cascade key is >= the stored key (last wins ties)
-            old(self).val.is_none() || key_ge(important, origin, specificity, old(self).important, old(self).origin, old(self).specificity) //@w[ @C19 #cascade_new_wins
-                ==> final(self).val == Some(val) && final(self).origin == origin && final(self).specificity == specificity && final(self).important == important, //@w]
-            !(old(self).val.is_none() || key_ge(important, origin, specificity, old(self).important, old(self).origin, old(self).specificity)) //@w[ @C19 #cascade_old_stays
-                ==> *final(self) == *old(self), //@w]
+            old(self).val.is_none() || key_ge(important, origin, specificity, old(self).important, old(self).origin, old(self).specificity) //@w @C19 #cascade_new_wins
+                ==> final(self).val == Some(val) && final(self).origin == origin && final(self).specificity == specificity && final(self).important == important, //@w @C19 #cascade_new_wins
+            !(old(self).val.is_none() || key_ge(important, origin, specificity, old(self).important, old(self).origin, old(self).specificity)) //@w @C19 #cascade_old_stays
+                ==> *final(self) == *old(self), //@w @C19 #cascade_old_stays
     {
         if self.val.is_some() {
             // We already have a value, so need to check.
@@ -211,6 +214,118 @@ impl<T: Clone> WithSpec<T> {
         self.origin = origin;
         self.specificity = specificity;
         self.important = important;
+    }
+//@end
+}
+
+// ---------------------------------------------------------------------------------------------
+// Selector specificity (src/css.rs:182-207): ids, then classes and pseudo-classes, then element names (C19, C20)
+//@item src/css.rs :: enum SelectorComponent
+pub enum SelectorComponent {
+    Class(String),
+    Element(String),
+    Hash(String),
+    Star,
+    CombChild,
+    CombDescendant,
+    NthChild {
+        /* An + B [of sel] */
+        a: i32,
+        b: i32,
+        sel: Selector,
+    },
+}
+//@end
+//@item src/css.rs :: enum PseudoElement
+pub enum PseudoElement {
+    Before,
+    After,
+}
+//@end
+//@item src/css.rs :: struct Selector
+pub struct Selector {
+    // List of components, right first so we match from the leaf.
+    pub components: Vec<SelectorComponent>,
+    pub pseudo_element: Option<PseudoElement>,
+}
+//@end
+
+// the specificity of a selector, from the property (C19/C20): (ids, classes + pseudo-classes, element names); the argument
+// selector of :nth-child counts too
+pub open spec fn comp_counts(c: SelectorComponent) -> (nat, nat, nat) decreases c {
+    match c {
+        SelectorComponent::Class(_) => (0, 1, 0),
+        SelectorComponent::Element(_) => (0, 0, 1),
+        SelectorComponent::Hash(_) => (1, 0, 0),
+        SelectorComponent::NthChild { a, b, sel } => { let s = comps_counts(sel.components@, sel.components@.len() as int); (s.0, s.1 + 1, s.2) },
+        _ => (0, 0, 0),
+    }
+}
+pub open spec fn comps_counts(cs: Seq<SelectorComponent>, k: int) -> (nat, nat, nat) decreases cs, k {
+    if k <= 0 || k > cs.len() { (0, 0, 0) } else {
+        let p = comps_counts(cs, k - 1);
+        let c = comp_counts(cs[k - 1]);
+        (p.0 + c.0, p.1 + c.1, p.2 + c.2)
+    }
+}
+pub open spec fn sel_counts(s: Selector) -> (nat, nat, nat) { comps_counts(s.components@, s.components@.len() as int) }
+
+proof fn lemma_counts_mono(cs: Seq<SelectorComponent>, a: int, b: int)
+    requires 0 <= a <= b <= cs.len(),
+    ensures comps_counts(cs, a).0 <= comps_counts(cs, b).0, comps_counts(cs, a).1 <= comps_counts(cs, b).1, comps_counts(cs, a).2 <= comps_counts(cs, b).2,
+    decreases b - a
+{ if a < b { lemma_counts_mono(cs, a, b - 1); } }
+
+impl Selector {
+//@item src/css.rs :: impl Selector :: fn specificity
+//@sub /-> Specificity/ ==> -> (r: Specificity)
+//@sub /for component in &self\.components/ ==> for component in it: &self.components
+//@auto C01 C19 C20
+    fn specificity(&self) -> (r: Specificity)
+        ensures //@w
+            !r.inline && r.id == sat16(sel_counts(*self).0 as int) && r.class == sat16(sel_counts(*self).1 as int) && r.typ == sat16(sel_counts(*self).2 as int), //@w @C19 @C20 #specificity_counts_ids_classes_elements
+        decreases self, //@w
+    {
+        let mut result: Specificity = Default::default();
+
+        for component in it: &self.components
+            invariant //@w
+                !result.inline, //@w
+                result.id == sat16(comps_counts(self.components@, it.index@).0 as int), result.class == sat16(comps_counts(self.components@, it.index@).1 as int), result.typ == sat16(comps_counts(self.components@, it.index@).2 as int), //@w
+        {
+            proof { //@w
+                let k = it.index@; //@w
+                assert(*component == self.components@[k]); //@w
+                lemma_counts_mono(self.components@, k + 1, self.components@.len() as int); //@w
+                let cs = self.components@; //@w
+                let p = comps_counts(cs, k); let c = comp_counts(cs[k]); //@w
+                assert(comps_counts(cs, k + 1) == (p.0 + c.0, p.1 + c.1, p.2 + c.2)); //@w
+                if let SelectorComponent::NthChild { a, b, sel } = cs[k] { //@w
+                    let sc = comps_counts(sel.components@, sel.components@.len() as int); //@w
+                    assert(c == (sc.0, sc.1 + 1, sc.2)); //@w
+                } //@w
+            } //@w
+            match component {
+                SelectorComponent::Class(_) => {
+                    result.class = result.class.saturating_add(1);
+                }
+                SelectorComponent::Element(_) => {
+                    result.typ = result.typ.saturating_add(1);
+                }
+                SelectorComponent::Hash(_) => {
+                    result.id = result.id.saturating_add(1);
+                }
+                SelectorComponent::Star => {}
+                SelectorComponent::CombChild => {}
+                SelectorComponent::CombDescendant => {}
+                SelectorComponent::NthChild { sel, .. } => {
+                    result.class = result.class.saturating_add(1);
+                    result += &sel.specificity();
+                }
+            }
+        }
+
+        result
     }
 //@end
 }
